@@ -1,1 +1,1 @@
-// placeholder
+//! Seeded generators shared by checks.
